@@ -46,6 +46,8 @@ def worker_main(pid: str) -> int:
         else:
             res = mod.run_shard(spec)
         data = res.to_json()
+        for v in data.get("violations", []):
+            v["hashseed"] = int(os.environ.get("PYTHONHASHSEED", "0") or 0)
     except common.Inconclusive as e:
         data = common.Result().to_json()
         data["inconclusive"].append("worker: %s" % e)
@@ -68,11 +70,15 @@ def run_specs(pid: str, specs, jobs: int, timeout_s: float):
         out_path = os.path.join(WORK, "%s_%d_%d.json" % (pid, os.getpid(), i))
         spec = dict(spec)
         spec["__out__"] = out_path
+        wenv = dict(env)
+        # the library iterates over sets of records and listeners; the string-hash seed decides those orders. Shards run
+        # under different (recorded) hash seeds so that more than one such order is explored; replays reuse the seed.
+        wenv["PYTHONHASHSEED"] = str(spec.get("__hashseed__", 0))
         try:
             p = subprocess.run(
                 [sys.executable, os.path.join(HERE, "run_check.py"), pid, "--worker"],
                 input=json.dumps(spec).encode(), stdout=subprocess.PIPE, stderr=subprocess.PIPE,
-                timeout=timeout_s, env=env, cwd=HERE,
+                timeout=timeout_s, env=wenv, cwd=HERE,
             )
         except subprocess.TimeoutExpired:
             return None, "shard %d: watchdog after %.0fs" % (i, timeout_s)
@@ -110,6 +116,9 @@ def matches(finding, sig) -> bool:
     return True
 
 
+HASHSEEDS = {"quick": 4, "thorough": 16}      # number of distinct PYTHONHASHSEED values spread over the shards
+
+
 def main() -> int:
     ap = argparse.ArgumentParser()
     ap.add_argument("pid")
@@ -136,10 +145,13 @@ def main() -> int:
     if args.replay:
         with open(args.replay) as f:
             blob = json.load(f)
-        specs = [{"__replay__": blob.get("replay", blob)}]
+        specs = [{"__replay__": blob.get("replay", blob), "__hashseed__": int(blob.get("hashseed", 0))}]
         timeout_s = 600
     else:
         specs = mod.plan(args.tier, seed)
+        n_hash = HASHSEEDS[args.tier]
+        for i, sp in enumerate(specs):
+            sp["__hashseed__"] = (i + seed) % n_hash
         timeout_s = getattr(mod, "SHARD_TIMEOUT", {"quick": 240, "thorough": 3000})[args.tier]
         known_all = load_known(pid)
         if known_all and hasattr(mod, "witnesses"):
@@ -180,7 +192,7 @@ def main() -> int:
     for i, v in enumerate(new_violations[:20]):
         path = os.path.join(HERE, "replays", "%s_%s_%d.json" % (pid, args.tier, i))
         with open(path, "w") as f:
-            json.dump({"property": pid, "seed": seed, "tier": args.tier, "sig": v["sig"], "detail": v["detail"],
+            json.dump({"property": pid, "seed": seed, "tier": args.tier, "hashseed": v.get("hashseed", 0), "sig": v["sig"], "detail": v["detail"],
                        "replay": v["replay"]}, f, indent=1)
         replay_paths.append(path)
 
@@ -211,6 +223,7 @@ def main() -> int:
                 "inconclusive_reasons": inconclusive,
                 "known_findings_observed": {fid: h["count"] for fid, h in known_hits.items()},
                 "shards": len(specs),
+                "string_hash_seeds_used": sorted({sp.get("__hashseed__", 0) for sp in specs}),
             },
             "assumptions": list(getattr(mod, "ASSUMPTIONS", [])),
             "wall_s": round(wall, 2),
